@@ -12,6 +12,11 @@ claim("C14",
       "Bounds: hashes of <= 2 fields (3 thorough), one command per step; replies compared as multisets where map order is unspecified. See evidence assumptions.",
       "DESIGN.md C14-C17")
 
+claim("C16",
+      "All 16 set commands are executed symbolically through the real dispatcher from arbitrary operand sets (or absent / wrong-typed keys) and compared with reference finite sets: membership changes and their counts, algebra over two operands including destination == source, operand purity, no sharing of the stored set object between destination and source, sizes/subset/distinctness of random selections with symbolic random draws; replies are decoded strictly (an unterminated empty array is a violation).",
+      "Bounds: sets of <= 2 members (3 thorough), two operand keys, one command per step. See evidence assumptions.",
+      "DESIGN.md C14-C17")
+
 # every property without a claim is listed as not applicable (yet) with its reason
 NA_REASONS = {}
 for n in range(1, 21):
